@@ -252,6 +252,13 @@ def run_main(fn):
     except Infra as e:
         log("INFRASTRUCTURE ERROR (exit 2, no verdict):", e)
         sys.exit(2)
+    except SystemExit:
+        raise
+    except BaseException:
+        # a bug or a dead tool in the machinery is never a verdict about the code
+        import traceback
+        log("INFRASTRUCTURE ERROR (exit 2, no verdict): the check itself failed\n" + traceback.format_exc())
+        sys.exit(2)
     sys.exit(rc)
 
 
